@@ -5,14 +5,14 @@ from stubs.fakeread import FakeRead
 from spec import c06 as S
 from vlib.sym import pick
 from singlecellmultiomics.molecule import MoleculeIterator, NlaIIIMolecule, Molecule
-from singlecellmultiomics.fragment import NlaIIIFragment
+from singlecellmultiomics.fragment import NlaIIIFragment, Fragment
 
 
 UMIS = ['AAA', 'AAT', 'CCC']
 SITES = [1000, 1007]
 
 
-def _l1_nla_pair(sa: int, sb: int, ra: bool, rb: bool, ca: int, cb: int, ia: int, ib: int, ua: str, ub: str, d: int) -> bool:
+def _l1_nla_pair(sa: int, sb: int, ra: bool, rb: bool, ca: int, cb: int, ia: int, ib: int, ua: str, ub: str, d: int, ka: int, kb: int) -> bool:
     """
     pre: 0 <= sa and 0 <= sb
     pre: 0 <= ca <= 6 and 0 <= cb <= 6
@@ -20,18 +20,20 @@ def _l1_nla_pair(sa: int, sb: int, ra: bool, rb: bool, ca: int, cb: int, ia: int
     pre: len(ua) <= 3 and len(ub) <= 3
     pre: 0 <= d <= 2
     pre: ca <= 6 and cb <= 6
+    pre: 0 <= ka <= 1 and 0 <= kb <= 1
     post: _
     """
-    a = S.nla_frag(FakeRead, sa, ra, ca, pick(S.SAMPLES, ia), ua, d)
-    b = S.nla_frag(FakeRead, sb, rb, cb, pick(S.SAMPLES, ib), ub, d)
-    same = (ia == ib) and (ra == rb) and (sa == sb)
+    a = S.nla_frag(FakeRead, sa, ra, ca, pick(S.SAMPLES, ia), ua, d, contig=pick(S.CONTIGS, ka))
+    b = S.nla_frag(FakeRead, sb, rb, cb, pick(S.SAMPLES, ib), ub, d, contig=pick(S.CONTIGS, kb))
+    same = (ia == ib) and (ra == rb) and (sa == sb) and (ka == kb)
     if (a.match_hash == b.match_hash) != same:
         return False
     return S.pair_clause(a, b, same and S.umi_close(ua, ub, d)) is None
 
 
-def _l2_chic_pair(pa: int, pb: int, ra: bool, rb: bool, ca: int, cb: int, ia: int, ib: int, ui: int, uj: int, d: int, radius: int) -> bool:
+def _l2_chic_pair(pa: int, pb: int, ra: bool, rb: bool, ca: int, cb: int, ia: int, ib: int, ui: int, uj: int, d: int, radius: int, ka: int, kb: int) -> bool:
     """
+    pre: 0 <= ka <= 1 and 0 <= kb <= 1
     pre: 30 <= pa and 30 <= pb
     pre: 0 <= ca <= 6 and 0 <= cb <= 6
     pre: 0 <= ia <= 1 and 0 <= ib <= 1
@@ -41,8 +43,8 @@ def _l2_chic_pair(pa: int, pb: int, ra: bool, rb: bool, ca: int, cb: int, ia: in
     post: _
     """
     ua, ub = pick(UMIS, ui), pick(UMIS, uj)
-    a = S.chic_frag(FakeRead, pa, ra, ca, pick(S.SAMPLES, ia), ua, d, radius)
-    b = S.chic_frag(FakeRead, pb, rb, cb, pick(S.SAMPLES, ib), ub, d, radius)
+    a = S.chic_frag(FakeRead, pa, ra, ca, pick(S.SAMPLES, ia), ua, d, radius, contig=pick(S.CONTIGS, ka))
+    b = S.chic_frag(FakeRead, pb, rb, cb, pick(S.SAMPLES, ib), ub, d, radius, contig=pick(S.CONTIGS, kb))
     k = 2
     site_a = pa - k if not ra else pa + k
     site_b = pb - k if not rb else pb + k
@@ -50,12 +52,13 @@ def _l2_chic_pair(pa: int, pb: int, ra: bool, rb: bool, ca: int, cb: int, ia: in
         near = site_a == site_b
     else:
         near = abs(site_a - site_b) <= radius
-    same = (ia == ib) and (ra == rb) and near
+    same = (ia == ib) and (ra == rb) and near and (ka == kb)
     return S.pair_clause(a, b, same and S.umi_close(ua, ub, d)) is None
 
 
-def _l2_plain_pair(sa: int, la: int, sb: int, lb: int, ra: bool, rb: bool, ia: int, ib: int, ui: int, uj: int, d: int, radius: int) -> bool:
+def _l2_plain_pair(sa: int, la: int, sb: int, lb: int, ra: bool, rb: bool, ia: int, ib: int, ui: int, uj: int, d: int, radius: int, ka: int, kb: int) -> bool:
     """
+    pre: 0 <= ka <= 1 and 0 <= kb <= 1
     pre: 0 <= sa and 0 <= sb and 1 <= la and 1 <= lb
     pre: 0 <= ia <= 1 and 0 <= ib <= 1
     pre: 0 <= ui <= 3 and 0 <= uj <= 3
@@ -65,14 +68,12 @@ def _l2_plain_pair(sa: int, la: int, sb: int, lb: int, ra: bool, rb: bool, ia: i
     """
     umis = ['AAA', 'AAT', 'ANA', 'CC']
     ua, ub = pick(umis, ui), pick(umis, uj)
-    a = S.plain_frag(FakeRead, sa, la, ra, pick(S.SAMPLES, ia), ua, d, radius)
-    b = S.plain_frag(FakeRead, sb, lb, rb, pick(S.SAMPLES, ib), ub, d, radius)
+    a = S.plain_frag(FakeRead, sa, la, ra, pick(S.SAMPLES, ia), ua, d, radius, contig=pick(S.CONTIGS, ka))
+    b = S.plain_frag(FakeRead, sb, lb, rb, pick(S.SAMPLES, ib), ub, d, radius, contig=pick(S.CONTIGS, kb))
     ds, de = abs(sa - sb), abs((sa + la) - (sb + lb))
     near = (ds if ds < de else de) <= radius
-    same = (ia == ib) and (ra == rb) and near
+    same = (ia == ib) and (ra == rb) and near and (ka == kb)
     return S.pair_clause(a, b, same and S.umi_close(ua, ub, d)) is None
-
-
 
 
 def _frags(n, keys, d, dups=None):
@@ -220,13 +221,45 @@ def _l4b_tags_rejected(n: int, mq: int, thr: int, d0: bool, d1: bool, d2: bool) 
     return True
 
 
+def _l3b_two_contigs(n: int, k0: int, k1: int, k2: int, k3: int, every: int, pooling: int, cls: int) -> bool:
+    """
+    pre: 2 <= n <= 4
+    pre: 0 <= k0 <= k1 <= k2 <= k3 <= 2
+    pre: 0 <= every <= 2
+    pre: 0 <= pooling <= 1
+    pre: 0 <= cls <= 1
+    post: _
+    """
+    # coordinate-sorted reads of ONE cell with ONE UMI at the SAME coordinates of up to three contigs: the molecules are
+    # exactly the per-contig classes, for every ejection interval (a molecule never spans two contigs)
+    ks = [pick([0, 1, 2], k) for k in [k0, k1, k2, k3][:n]]
+    contigs = ['chr1', 'chr2', 'chr3']
+    ev = pick([None, 1, 2], every)
+    if cls == 0:
+        frags = [S.plain_frag(FakeRead, 100, 10, False, 'lib_1', 'AAA', 0, 0, contig=contigs[k]) for k in ks]
+        kw = dict(molecule_class=Molecule, fragment_class=Fragment)
+    else:
+        frags = [S.nla_frag(FakeRead, 100, False, 0, 'lib_1', 'AAA', 0, contig=contigs[k]) for k in ks]
+        kw = dict(molecule_class=NlaIIIMolecule, fragment_class=NlaIIIFragment)
+    for i, f in enumerate(frags):
+        f.reads[0].query_name = 'f%d' % i
+    it = MoleculeIterator([[f.reads[0], None] for f in frags], fragment_class_args={'umi_hamming_distance': 0},
+                          perform_qflag=False, pooling_method=pooling, check_eject_every=ev, **kw)
+    got = sorted(sorted(int(fr.reads[0].query_name[1:]) for fr in m) for m in it)
+    exp = {}
+    for i, k in enumerate(ks):
+        exp.setdefault(k, []).append(i)
+    return got == sorted(exp.values())
+
+
 _T = {'quick': 240, 'thorough': 1200}
 LEMMAS = [
     dict(name='L1_nla_pairwise', fn='_l1_nla_pair', engine='E1', timeout=_T, replay='replay.C06:replay',
-         cases={'quick': [dict(id='d%d_%s' % (d, 'samestrand' if e else 'opp'), pre=['d == %d' % d, ('ra == rb' if e else 'ra != rb'), 'len(ua) <= 2', 'len(ub) <= 2', 'ca <= 2', 'cb <= 2']) for d in (0, 1, 2) for e in (1, 0)],
+         cases={'quick': [dict(id='d%d_%s' % (d, 'samestrand' if e else 'opp'), pre=['d == %d' % d, ('ra == rb' if e else 'ra != rb'), 'len(ua) <= 2', 'len(ub) <= 2', 'ca <= 2', 'cb <= 2', 'ka == 0']) for d in (0, 1, 2) for e in (1, 0)],
                 'thorough': [dict(id='d%d_%s_la%d' % (d, 'samestrand' if e else 'opp', la), pre=['d == %d' % d, ('ra == rb' if e else 'ra != rb'), 'len(ua) == %d' % la]) for d in (0, 1, 2) for e in (1, 0) for la in (0, 1, 2, 3)]}),
     dict(name='L2_chic_pairwise', fn='_l2_chic_pair', engine='E1', timeout=_T, replay='replay.C06:replay',
-         cases={'quick': [dict(id='r%s_d%d_%s' % ('0' if z else 'pos', d, 'fwd' if f else 'rev'), pre=[('radius == 0' if z else 'radius >= 1'), 'd == %d' % d, 'ra == rb', 'ra == %s' % (not f), 'ca <= 2', 'cb <= 2']) for z in (1, 0) for d in (0, 1) for f in (1, 0)]}),
+         cases={'quick': [dict(id='r%s_d%d_%s' % ('0' if z else 'pos', d, 'fwd' if f else 'rev'), pre=[('radius == 0' if z else 'radius >= 1'), 'd == %d' % d, 'ra == rb', 'ra == %s' % (not f), 'ca <= 2', 'cb <= 2', 'ka == 0', 'kb == 0']) for z in (1, 0) for d in (0, 1) for f in (1, 0)] +
+                         [dict(id='other_contig_r%s_d%d' % ('0' if z else 'pos', d), pre=[('radius == 0' if z else 'radius >= 1'), 'd == %d' % d, 'ka == 0', 'kb == 1', 'ra == rb', 'ca <= 1', 'cb == 0']) for z in (1, 0) for d in (0, 1)]}),
     dict(name='L2_plain_pairwise', fn='_l2_plain_pair', engine='E1', timeout=_T, replay='replay.C06:replay',
          cases={'quick': [dict(id='d%d' % d, pre=['d == %d' % d]) for d in (0, 1)]}),
     dict(name='L3_grouping', fn='_l3_grouping', engine='E1', timeout=_T, replay='replay.C06:replay',
@@ -234,6 +267,8 @@ LEMMAS = [
                           for n in (1, 2) for d in (0, 1) for p in (0, 1)] +
                          [dict(id='n3_d%d_p%d_s%d' % (d, p, s), pre=['n == 3', 'd == %d' % d, 'pooling == %d' % p, 's0 == %d' % s, 'r0 == False', 'r1 == False', 'r2 == False', 'c0 == 0', 'c1 == 0', 'c2 <= 1']) for d in (0, 1) for p in (0, 1) for s in (0, 1)],
                 'thorough': [dict(id='n3_d%d_p%d_s%d_c%d_r%d' % (d, p, s, c, r), pre=['n == 3', 'd == %d' % d, 'pooling == %d' % p, 's0 == %d' % s, 'c0 == %d' % c, 'r0 == %s' % bool(r)]) for d in (0, 1) for p in (0, 1) for s in (0, 1) for c in (0, 1) for r in (0, 1)]}),
+    dict(name='L3b_grouping_across_contigs', fn='_l3b_two_contigs', engine='E1', timeout=_T, replay='replay.C06:replay',
+         cases={'quick': [dict(id='plain', pre=['cls == 0']), dict(id='nla', pre=['cls == 1'])]}),
     dict(name='L4b_tags_of_rejected_molecule', fn='_l4b_tags_rejected', engine='E1', timeout=_T, replay='replay.C06:replay'),
     dict(name='L5_fragment_cap', fn='_l5_cap', engine='E1', timeout=_T, replay='replay.C06:replay',
          cases={'quick': [dict(id='cap%d_p%d' % (c, p), pre=['cap == %d' % c, 'pooling == %d' % p]) for c in (1, 2) for p in (0, 1)]}),
@@ -243,11 +278,11 @@ LEMMAS = [
 PROPERTY = dict(
     functions=['fragment.Fragment.__init__/__eq__/umi_eq', 'fragment.NlaIIIFragment.__init__/__eq__ (match_hash)', 'fragment.CHICFragment.__init__/__eq__',
                'molecule.Molecule.__init__/add_fragment/_add_fragment/write_tags', 'molecule.NlaIIIMolecule._add_fragment/write_tags', 'molecule.iterator.MoleculeIterator'],
-    bounds=dict(pairwise='two fragments: UNBOUNDED site coordinates, clips 0..6, both strands, 2 cells, arbitrary UMIs of length <= 2 with clips 0..2 (thorough: <= 3, clips 0..6) (CHIC: pool of 3 UMIs; plain: pool of 4 incl. N and unequal length), hamming 0..2, radius 0 and unbounded',
+    bounds=dict(pairwise='two fragments on the same or on different contigs: UNBOUNDED site coordinates, clips 0..6, both strands, 2 cells, arbitrary UMIs of length <= 2 with clips 0..2 (thorough: <= 3, clips 0..6) (CHIC: pool of 3 UMIs; plain: pool of 4 incl. N and unequal length), hamming 0..2, radius 0 and unbounded',
                 grouping='<=3 NLA fragments with site / cell / UMI / strand from pools (2 sites, 2 cells, 3 UMIs at distance 1 or 3), hamming 0/1, both pooling methods',
-                cap='2..4 fragments of two UMIs at one site in any arrival order, cap 1..2, both pooling methods', tags='molecule of 1..4 fragments with arbitrary initial duplicate flags, max-fragments cap 1..4 or none, write_tags twice'),
+                across_contigs='2..4 sorted reads of one cell / UMI / coordinates on up to 3 contigs, ejection interval none/1/2, both pooling methods, plain Fragment+Molecule and NlaIII classes', cap='2..4 fragments of two UMIs at one site in any arrival order, cap 1..2, both pooling methods', tags='molecule of 1..4 fragments with arbitrary initial duplicate flags, max-fragments cap 1..4 or none, write_tags twice'),
     outside=['sequencing-error / soft-clip realism of a simulator (the solver ranges over all geometries instead)', 'allele-split molecules', 'paired-end R2 ends (single R1 fragments are used)',
-             'transitivity chains longer than 3 fragments'],
+             'transitivity chains longer than 3 fragments', 'ScarTraceFragment / FeatureCounts fragments (own __eq__)'],
     assumptions=['UMI distance is the package\'s documented one (N matches anything; sequtils.hamming_distance)', 'FakeRead models pysam.AlignedSegment',
                  'CHIC site offset 2 for trimmed layouts (C09)'],
     trusted=['stubs/fakeread.py', 'spec/c06.py', 'spec/c09.py read geometry'],
